@@ -37,6 +37,9 @@ type op struct {
 	Size uint64 `json:"size,omitempty"`
 	Buf  int    `json:"buf"`
 	Off  uint64 `json:"off,omitempty"`
+	// Tight (Remap onto a unified device only): the unified device has room for
+	// the range in total, but at least one member GPU on its own has not.
+	Tight bool `json:"tight,omitempty"`
 }
 
 type steer struct {
@@ -57,6 +60,8 @@ type scenario struct {
 	Steps    int         `json:"steps,omitempty"`
 	FreeMode string      `json:"free_mode,omitempty"` // lifo | fifo | random
 	Steer    steer       `json:"steer"`
+	Focus    string      `json:"focus,omitempty"`    // generator flavour: "" | unified | unified-small
+	Canon    bool        `json:"canon,omitempty"`    // member of the seed-independent battery (coverage rows "canon|...")
 	GenSeed  uint64      `json:"gen_seed,omitempty"` // 0: Ops is a fixed list
 	Ops      []op        `json:"ops"`
 	Engine   *engineCase `json:"engine,omitempty"`
@@ -101,8 +106,10 @@ type physOwner struct {
 
 type pageSt struct {
 	vaddr   uint64
-	class   []int  // DeviceIDs the page may carry
+	class   []int  // devices whose memory may back the page (a unified device is expanded to its members)
+	req     []int  // device ids the last placing operation named (the page may record one of them, or the backing device)
 	classBy string // operation that set the class
+	target  string // kind of the device that operation named (coverage rows)
 	paddr   uint64
 	seen    bool
 }
@@ -309,9 +316,20 @@ func (w *world) occupancy(dev int) []bool {
 // power-of-two run) or by n single-page requests (contiguous=false)?
 func (w *world) canTake(dev, n int, contiguous bool) bool {
 	d := w.devs[dev]
+	if d.kind == devCPU {
+		// 4 GiB; histories place a few hundred pages at most
+		return d.pages-d.used >= 4096+pow2ceil(n)
+	}
 	if d.kind == devUnified {
 		if contiguous {
-			return false
+			// one request is served by ONE member GPU; which one is the
+			// implementation's business: every member must have the room
+			for _, m := range d.members {
+				if !w.canTake(m, n, true) {
+					return false
+				}
+			}
+			return true
 		}
 		return w.freePages(dev) >= n
 	}
@@ -361,19 +379,48 @@ func (w *world) lookup(b *bufSt, i int, fresh bool, by string) bool {
 		w.viol("paddr-unaligned|"+w.alloc(), fmt.Sprintf("PAddr 0x%x is not a multiple of the page size %d", pg.PAddr, w.ps), desc)
 		return false
 	}
+	// "inside the memory of the device recorded for it": the backing device
+	// (by construction of the physical layout) is the recorded one, or the
+	// recorded one is a unified device and the backing device is one of its
+	// member GPUs (a unified device has no memory of its own).
 	dev := w.devOfPAddr(pg.PAddr)
-	if dev < 0 || uint64(dev) != pg.DeviceID {
+	recOK := dev >= 0 && uint64(dev) == pg.DeviceID
+	if !recOK && dev >= 0 && pg.DeviceID < uint64(len(w.devs)) && w.devs[pg.DeviceID].kind == devUnified {
+		for _, m := range w.devs[pg.DeviceID].members {
+			if m == dev {
+				recOK = true
+			}
+		}
+		if recOK && fresh {
+			w.rec.Count("pages_recorded_under_a_unified_device_id", 1)
+		}
+	}
+	if !recOK {
 		kind := "none"
 		if dev >= 0 {
 			kind = fmt.Sprintf("dev%d", dev)
 		}
 		rk := "unknown"
-		if int(pg.DeviceID) < len(w.devs) {
+		if pg.DeviceID < uint64(len(w.devs)) {
 			rk = []string{"cpu", "gpu", "unified"}[w.devs[pg.DeviceID].kind]
 		}
 		w.viol(fmt.Sprintf("paddr-outside-recorded-device|recorded-%s|after-%s|%s", rk, p.classBy, w.alloc()),
-			fmt.Sprintf("PAddr 0x%x lies in the memory of %s but the page records DeviceID %d", pg.PAddr, kind, pg.DeviceID), desc)
+			fmt.Sprintf("PAddr 0x%x lies in the memory of %s but the page records DeviceID %d (%s)", pg.PAddr, kind, pg.DeviceID, w.kindName(int(pg.DeviceID))), desc)
 		return false
+	}
+	if uint64(dev) != pg.DeviceID {
+		// recorded under a unified id: it must be one the placing operation named
+		named := false
+		for _, q := range p.req {
+			if uint64(q) == pg.DeviceID {
+				named = true
+			}
+		}
+		if !named {
+			w.viol(fmt.Sprintf("recorded-unified-device-not-requested|after-%s|%s", p.classBy, w.alloc()),
+				fmt.Sprintf("page records unified device %d which the %s did not name (named: %v)", pg.DeviceID, p.classBy, p.req), desc)
+			return false
+		}
 	}
 	inClass := false
 	for _, c := range p.class {
@@ -515,6 +562,115 @@ func (w *world) walk(by string) bool {
 	return true
 }
 
+// precheck applies to a fixed (canonical) step the rules the generator obeys:
+// indices valid, buffers owned by the calling context's process and live,
+// requests within capacity by the monitor's accounting. "" = fine.
+func (w *world) precheck(o op) string {
+	needCtx := o.K != kInit
+	if needCtx && (o.C < 0 || o.C >= len(w.ctxs)) {
+		if o.K == kInitPID && o.C == len(w.ctxs) {
+			needCtx = false
+		} else {
+			return "no such context"
+		}
+	}
+	badDev := func(d int) bool { return d < 0 || d >= len(w.devs) }
+	bufOf := func() (*bufSt, string) {
+		if o.Buf < 0 || o.Buf >= len(w.bufs) {
+			return nil, "no such buffer"
+		}
+		b := w.bufs[o.Buf]
+		if !b.live {
+			return nil, "buffer already freed"
+		}
+		if b.pid != w.ctxs[o.C].pid {
+			return nil, "buffer belongs to another process"
+		}
+		return b, ""
+	}
+	switch o.K {
+	case kInit:
+		if o.C != len(w.ctxs) {
+			return "context index is not the next one"
+		}
+	case kInitPID:
+		if o.C != len(w.ctxs) || o.From < 0 || o.From >= len(w.ctxs) {
+			return "bad context indices"
+		}
+	case kSelect:
+		if badDev(o.Dev) {
+			return "no such device"
+		}
+	case kUnify:
+		if len(o.Devs) == 0 {
+			return "empty member list"
+		}
+		for _, d := range o.Devs {
+			if badDev(d) || w.devs[d].kind != devGPU {
+				return "member is not an actual GPU"
+			}
+		}
+	case kAlloc:
+		if o.Size == 0 || !w.canTake(w.ctxs[o.C].cur, npagesOf(o.Size, w.ps), false) {
+			return "not within the capacity of the current device"
+		}
+	case kAllocU:
+		if o.Size == 0 || !w.canTake(1, npagesOf(o.Size, w.ps), false) {
+			return "not within the capacity of GPU 1"
+		}
+	case kProbe:
+		if w.freePages(w.ctxs[o.C].cur) != 0 {
+			return "the current device is not full"
+		}
+	case kFree:
+		b, why := bufOf()
+		if why != "" {
+			return why
+		}
+		if b.ctx != o.C {
+			return "buffer was allocated through another context"
+		}
+	case kRemap:
+		b, why := bufOf()
+		if why != "" {
+			return why
+		}
+		n := npagesOf(o.Size, w.ps)
+		if o.Size == 0 || int(o.Off)+n > len(b.pages) || badDev(o.Dev) {
+			return "range outside the buffer / no such device"
+		}
+		if o.Tight {
+			d := w.devs[o.Dev]
+			if d.kind != devUnified || w.sc.Buddy || w.canTake(o.Dev, n, true) || w.freePages(o.Dev) < n {
+				return "not a tight remap onto a unified device"
+			}
+		} else if !w.canTake(o.Dev, n, true) {
+			return "target device (or one of its members) has not the room"
+		}
+	case kDist:
+		b, why := bufOf()
+		if why != "" {
+			return why
+		}
+		if w.sc.Buddy || len(o.Devs) == 0 {
+			return "Distribute is not driven under the buddy allocator / empty list"
+		}
+		for _, d := range o.Devs {
+			if badDev(d) {
+				return "no such device"
+			}
+			if len(o.Devs) > 1 {
+				for _, m := range w.physOf(d) {
+					if !w.canTake(m, len(b.pages), false) {
+						return "a reachable GPU has not the room for the whole buffer"
+					}
+				}
+			}
+		}
+	}
+	return ""
+}
+
 // ---------------------------------------------------------------------------
 // executor: one step on the real driver and on the shadow
 
@@ -562,6 +718,7 @@ func (w *world) exec(o op) bool {
 			return false
 		}
 		w.ctxs[o.C].cur = o.Dev
+		w.cov("select|target=" + w.kindName(o.Dev))
 
 	case kUnify:
 		var id int
@@ -573,7 +730,23 @@ func (w *world) exec(o op) bool {
 			w.viol("unified-device-id", fmt.Sprintf("CreateUnifiedGPU returned %d, expected the next device id %d", id, len(w.devs)), nil)
 			return false
 		}
+		nth, overlap := 1, "n"
+		for _, dv := range w.devs {
+			if dv.kind != devUnified {
+				continue
+			}
+			nth++
+			for _, m := range dv.members {
+				for _, q := range o.Devs {
+					if m == q {
+						overlap = "y"
+					}
+				}
+			}
+		}
 		w.devs = append(w.devs, &devInfo{id: id, kind: devUnified, members: append([]int(nil), o.Devs...)})
+		w.cov(fmt.Sprintf("unify|k=%d", len(o.Devs)))
+		w.cov(fmt.Sprintf("unify|nth=%d|shares-member-with-earlier=%s", nth, overlap))
 
 	case kAlloc, kAllocU, kProbe:
 		return w.execAlloc(o)
@@ -585,6 +758,18 @@ func (w *world) exec(o op) bool {
 		b := w.bufs[o.Buf]
 		addr := b.ptr + o.Off*w.ps
 		if pv, st := call(func() { d.Remap(w.ctxs[o.C].ctx, addr, o.Size, o.Dev) }); pv != nil {
+			if o.Tight {
+				dv := w.devs[o.Dev]
+				var room []int
+				for _, m := range dv.members {
+					room = append(room, w.freePages(m))
+				}
+				w.viol("crash|remap-onto-unified-device|one-member-short-of-room-while-the-device-has-room|"+w.alloc(),
+					fmt.Sprintf("Remap of %d pages onto unified device %d (members %v with %v free pages, %d in total) panicked: %v",
+						npagesOf(o.Size, w.ps), o.Dev, dv.members, room, w.freePages(o.Dev), pv),
+					map[string]any{"panic": fmt.Sprint(pv), "stack": trimStack(st), "members": dv.members, "free_pages_per_member": room})
+				return false
+			}
 			w.crash(o, pv, st)
 			return false
 		}
@@ -592,11 +777,16 @@ func (w *world) exec(o op) bool {
 		if n > 1 {
 			w.rec.Count("multi_page_remaps", 1)
 		}
+		w.covTarget("remap", "target", o.Dev, n)
+		w.cov("remap|target=" + w.kindName(o.Dev) + "|" + sizeClass(o.Size, w.ps))
+		if o.Tight {
+			w.cov("remap|target=" + w.kindName(o.Dev) + "|a-member-has-less-room-than-the-range")
+		}
 		var fresh []uint64
 		for i := int(o.Off); i < int(o.Off)+n; i++ {
 			p := b.pages[i]
 			old, had := p.paddr, p.seen
-			p.class, p.classBy = []int{o.Dev}, kRemap
+			p.class, p.req, p.classBy, p.target = w.physOf(o.Dev), []int{o.Dev}, kRemap, w.kindName(o.Dev)
 			w.lastWriter[p.vaddr] = b.pid
 			if !w.lookup(b, i, true, kRemap) {
 				return false
@@ -606,6 +796,23 @@ func (w *world) exec(o op) bool {
 			}
 		}
 		w.setBlocks(fresh, true)
+		if dv := w.devs[o.Dev]; dv.kind == devUnified && len(dv.members) > 1 {
+			// observed, not judged: which member GPU served the request, and
+			// whether one request was spread over several members
+			served := map[int]bool{}
+			for i := int(o.Off); i < int(o.Off)+n; i++ {
+				served[w.phys[b.pages[i].paddr].dev] = true
+			}
+			if len(served) > 1 {
+				w.rec.Count("observed|remap-onto-unified|one-request-spread-over-several-members", 1)
+			} else {
+				for i, m := range dv.members {
+					if served[m] {
+						w.rec.Count(fmt.Sprintf("observed|remap-onto-unified|served-by-member-index=%d", i), 1)
+					}
+				}
+			}
+		}
 
 	case kDist:
 		b := w.bufs[o.Buf]
@@ -617,6 +824,8 @@ func (w *world) exec(o op) bool {
 			return false
 		}
 		w.rec.Distinct("distribute_width", fmt.Sprint(len(o.Devs)))
+		w.cov("dist|list|" + listShape(w, o.Devs))
+		w.cov(fmt.Sprintf("dist|list-length=%d", len(o.Devs)))
 		if len(ret) != len(o.Devs) {
 			w.viol("distribute-return-length", fmt.Sprintf("Distribute over %d GPUs returned %d counts", len(o.Devs), len(ret)), nil)
 			return false
@@ -624,37 +833,49 @@ func (w *world) exec(o op) bool {
 		if len(o.Devs) == 1 {
 			// the driver treats this as "leave the buffer where it is"
 			// (observed, not judged); nothing may change
+			w.covTarget("dist", "only-entry", o.Devs[0], len(b.pages))
 			break
 		}
-		perDev := map[int]uint64{}
-		var fresh []uint64
-		for i, p := range b.pages {
-			old, had := p.paddr, p.seen
-			p.class, p.classBy = append([]int(nil), o.Devs...), kDist
-			w.lastWriter[p.vaddr] = b.pid
-			if !w.lookup(b, i, true, kDist) {
-				return false
-			}
-			if !had || old != p.paddr {
-				fresh = append(fresh, p.paddr)
-			}
-			perDev[w.phys[p.paddr].dev] += w.ps
-		}
-		w.setBlocks(fresh, false)
+		// The returned byte counts are per list ENTRY, in list order, and the
+		// buffer is cut into consecutive segments in that order (callers
+		// compute which GPU works on which part from them): entry i owns the
+		// pages [sum(ret[:i]), sum(ret[:i+1])) / pageSize and they must lie
+		// on the device it names (a member GPU if it names a unified device).
 		var sum uint64
-		for i, g := range o.Devs {
-			sum += ret[i]
-			if ret[i] != perDev[g] {
-				w.viol("distribute-return-disagrees-with-page-table",
-					fmt.Sprintf("Distribute reports %d bytes on GPU %d, the page table holds %d bytes of the buffer there", ret[i], g, perDev[g]),
+		for i := range o.Devs {
+			if ret[i]%w.ps != 0 {
+				w.viol("distribute-return-not-page-multiple", fmt.Sprintf("Distribute reports %d bytes for list entry %d, not a multiple of the page size", ret[i], i),
 					map[string]any{"returned": ret, "gpus": o.Devs})
 				return false
 			}
+			sum += ret[i]
 		}
 		if sum != uint64(len(b.pages))*w.ps {
-			w.viol("distribute-return-sum", fmt.Sprintf("Distribute reports %d bytes in total for a buffer of %d pages", sum, len(b.pages)), nil)
+			w.viol("distribute-return-sum", fmt.Sprintf("Distribute reports %d bytes in total for a buffer of %d pages", sum, len(b.pages)),
+				map[string]any{"returned": ret, "gpus": o.Devs})
 			return false
 		}
+		var fresh []uint64
+		pi := 0
+		for e, g := range o.Devs {
+			ne := int(ret[e] / w.ps)
+			w.covTarget("dist", "entry-target", g, ne)
+			for j := 0; j < ne; j++ {
+				i := pi + j
+				p := b.pages[i]
+				old, had := p.paddr, p.seen
+				p.class, p.req, p.classBy, p.target = w.physOf(g), []int{g}, kDist, w.kindName(g)
+				w.lastWriter[p.vaddr] = b.pid
+				if !w.lookup(b, i, true, kDist) {
+					return false
+				}
+				if !had || old != p.paddr {
+					fresh = append(fresh, p.paddr)
+				}
+			}
+			pi += ne
+		}
+		w.setBlocks(fresh, false)
 	default:
 		panic("unknown op " + o.K)
 	}
@@ -679,6 +900,7 @@ func (w *world) execAlloc(o op) bool {
 	if o.K == kProbe {
 		if pv != nil {
 			w.rec.Count("overallocation_refused", 1)
+			w.cov("probe-refused|cur=" + w.kindName(c.cur))
 			w.fullEpisodes++
 			w.rec.Count("full_device_episodes", 1)
 			return w.walk(o.K)
@@ -692,13 +914,20 @@ func (w *world) execAlloc(o op) bool {
 		w.crash(o, pv, st)
 		return false
 	}
-	class := []int{c.cur}
+	tgt := c.cur
 	if o.K == kAllocU {
-		class = []int{1}
-	} else if dv := w.devs[c.cur]; dv.kind == devUnified {
-		class = append([]int(nil), dv.members...)
+		tgt = 1
 	}
+	class := w.physOf(tgt)
 	n := npagesOf(size, w.ps)
+	switch o.K {
+	case kAllocU:
+		w.cov("allocu|" + pclass(n, 1))
+		w.cov("allocu|" + sizeClass(size, w.ps))
+	case kAlloc:
+		w.covTarget("alloc", "cur", tgt, n)
+		w.cov("alloc|cur=" + w.kindName(tgt) + "|" + sizeClass(size, w.ps))
+	}
 	b := &bufSt{serial: len(w.bufs), ctx: o.C, pid: c.pid, ptr: uint64(ptr), size: size, live: true}
 	desc := map[string]any{"ptr": uint64(ptr), "size": size}
 	if b.ptr%w.ps != 0 {
@@ -719,7 +948,7 @@ func (w *world) execAlloc(o op) bool {
 		}
 	}
 	for i := 0; i < n; i++ {
-		b.pages = append(b.pages, &pageSt{vaddr: b.ptr + uint64(i)*w.ps, class: class, classBy: o.K})
+		b.pages = append(b.pages, &pageSt{vaddr: b.ptr + uint64(i)*w.ps, class: class, req: []int{tgt}, classBy: o.K, target: w.kindName(tgt)})
 	}
 	w.bufs = append(w.bufs, b)
 	w.byPID[c.pid] = append(w.byPID[c.pid], b.serial)
@@ -763,6 +992,7 @@ func (w *world) execFree(o op) bool {
 		w.rec.Count("multi_page_frees", 1)
 		w.multiPgFree = true
 	}
+	w.cov("free|placed-by=" + w.placementOf(b) + "|" + pclass(len(b.pages), 1))
 	// post-condition of this free, before the global walk, so that the two
 	// defects confirmed on the pinned tree get their own keys
 	var still []int
